@@ -63,7 +63,7 @@ def cases(draw, tier):
                        "growth_factor": draw(K.growth_strategy)},
             "X": X, "scale2": draw(st.floats(1.0, 3.0)),
             # the detector may have been fitted on other data (other length): detections are relative to threshold_
-            "n_train": draw(st.sampled_from([None, None, "shorter", "longer"]))}
+            "n_train": draw(st.sampled_from([None, None, "shorter", "longer", "same_buffer"]))}
 
 
 def training_data(X, mode, n_min, scorer_spec=None):
@@ -71,6 +71,8 @@ def training_data(X, mode, n_min, scorer_spec=None):
     Table scorers are defined for positions 0..n only, so they are never fitted on longer data."""
     if mode == "longer" and isinstance(scorer_spec, dict) and scorer_spec.get("cls", "").startswith("Table"):
         mode = None
+    if mode == "same_buffer":
+        return X[::-1] * 0.75 + 0.5  # other contents of the same shape: the caller refills one buffer
     if mode == "shorter" and len(X) > n_min:
         return X[: max(n_min, (len(X) + n_min) // 2)]
     if mode == "longer":
@@ -84,9 +86,16 @@ def check(case):
     n, p = X.shape
     msl, mil = params["min_segment_length"], params["max_interval_length"]
     Xtrain = training_data(X, case.get("n_train"), 2 * msl, params["change_score"])
+    Xpred = X
+    if case.get("n_train") == "same_buffer":
+        # the caller keeps one preallocated buffer: fitted with the training contents, then refilled in place
+        Xtrain = Xtrain.copy()
+        Xpred = Xtrain
     with sut("SeededBinarySegmentation.fit/predict"):
         det = K.build(K.detector_spec("SeededBinarySegmentation", params)).fit(Xtrain)
-        y = det.predict(X)
+        if Xpred is Xtrain:
+            Xtrain[:] = X
+        y = det.predict(Xpred)
         table = det.scores
         thr = float(det.threshold_)
     cpts = [int(v) for v in y["ilocs"].tolist()]
@@ -161,6 +170,8 @@ def check(case):
             classes.append("threshold_removed_some")
     if len(Xtrain) != n:
         classes.append("fitted_on_other_length")
+    if case.get("n_train") == "same_buffer":
+        classes.append("buffer_refilled_after_fit")
     if mil == 2 * msl:
         classes.append("mil=2msl")
     if n == 2 * msl:
